@@ -441,6 +441,9 @@ func driveKernel(r *rand.Rand, w *bufio.Writer, id int, cv *coverOut) {
 	for {
 		key := pick(r, []uint64{0, 1, 9, 0x7FFF, 0xFFFE, 0xFFFF})
 		a, b := edgeShape(r, key), edgeShape(r, key)
+		if r.Intn(2) == 0 {
+			b = relativeShape(r, a, key)
+		}
 		if r.Intn(3) == 0 && key < 0xFFFF {
 			a = a.union(edgeShape(r, key+1))
 		}
